@@ -21,6 +21,11 @@ RULE = ('cases = abstract PELs (PH, UH, 0..40 optional sections of all nine cons
 
 def compare(ck, p, data, real, model, spec, cfg_every=True, label='pel', extra=None):
     rp = {'op': 'parsePEL', 'pel': apel.describe(p) if p else None, 'data_hex': data.hex(), 'extra': extra}
+    if apel.TOUCHED_SHIPPED[0]:
+        # the input reached udparsers.oe500 / udparsers.m2c00 / srcparsers.oe500, which this check's environment (and hence the
+        # model's answer) does not contain: those modules have their own models and checks (C18, C20)
+        ck.skip('input reaches a shipped parser module (covered by C18 / C20)')
+        return
     # ---- property on the real code (only meaningful when the spec renders a document)
     if spec is not None and spec[0] == 'doc':
         if real[0] != 'doc':
